@@ -25,8 +25,43 @@ fn ser(o: &Object, out: &mut Vec<u8>) {
 #[derive(Clone, Copy, Debug, PartialEq)]
 pub enum Style { Table, XStream, ObjStm }
 
-/// append one revision to `file`; `objs` = new or replaced objects; returns the new startxref
-fn append_revision(file: &mut Vec<u8>, objs: &[(u32, Object)], size: u32, root: u32, prev: usize, style: Style) -> usize {
+/// who writes one revision of a history: the reference writer (in one cross-reference style) or lopdf's IncrementalDocument
+#[derive(Clone, Copy, Debug, PartialEq)]
+pub enum Producer { Ref(Style), Lopdf }
+
+/// one edit of an update revision
+#[derive(Clone, Copy, Debug, PartialEq)]
+pub enum Op {
+    /// replace an object of the base document
+    Replace(u32),
+    /// add an object under a number the caller chose (leaves a hole below it)
+    At(u32),
+    /// add an object and let the PRODUCER choose the number: lopdf through `new_document.add_object()`, the reference
+    /// writer takes the highest number defined so far plus one
+    New,
+}
+
+/// the object numbers defined anywhere in the file as plain indirect objects (`N 0 obj` at the start of a token), found
+/// by a byte scan that knows nothing about cross-reference sections
+fn numbers_defined(file: &[u8]) -> std::collections::BTreeSet<u32> {
+    let pat = b" 0 obj";
+    let mut out = std::collections::BTreeSet::new();
+    if file.len() < pat.len() { return out; }
+    for i in 0..=file.len() - pat.len() {
+        if &file[i..i + pat.len()] != pat { continue; }
+        let mut j = i;
+        while j > 0 && file[j - 1].is_ascii_digit() { j -= 1; }
+        if j == i || i - j > 9 { continue; }
+        if j > 0 && !matches!(file[j - 1], b'\n' | b'\r' | b' ') { continue; }
+        if let Ok(n) = std::str::from_utf8(&file[j..i]).unwrap_or("").parse::<u32>() { out.insert(n); }
+    }
+    out
+}
+
+/// append one revision to `file`; `objs` = new or replaced objects; `container` / `xid` = the numbers of the object
+/// stream and of the cross-reference stream (where the style has them); `size` = the /Size to announce (highest number
+/// of the whole file + 1); returns the new startxref
+fn append_revision(file: &mut Vec<u8>, objs: &[(u32, Object)], container: u32, xid: u32, size: u32, root: u32, prev: usize, style: Style) -> usize {
     if !file.ends_with(b"\n") { file.push(b'\n'); }
     let mut offsets: BTreeMap<u32, (u8, u64, u64)> = BTreeMap::new(); // id -> (type, f2, f3)
     match style {
@@ -39,7 +74,6 @@ fn append_revision(file: &mut Vec<u8>, objs: &[(u32, Object)], size: u32, root: 
             }
         }
         Style::ObjStm => {
-            let container = size; // fresh id
             let mut index = Vec::new();
             let mut body = Vec::new();
             for (k, (id, o)) in objs.iter().enumerate() {
@@ -61,15 +95,14 @@ fn append_revision(file: &mut Vec<u8>, objs: &[(u32, Object)], size: u32, root: 
         Style::Table => {
             file.extend_from_slice(b"xref\n");
             for (id, (_, off, _)) in &offsets { file.extend_from_slice(format!("{} 1\n{:010} {:05} n \n", id, off, 0).as_bytes()); }
-            file.extend_from_slice(format!("trailer\n<</Size {} /Root {} 0 R /Prev {}>>\n", size + 1, root, prev).as_bytes());
+            file.extend_from_slice(format!("trailer\n<</Size {} /Root {} 0 R /Prev {}>>\n", size, root, prev).as_bytes());
         }
         Style::XStream | Style::ObjStm => {
-            let xid = size + if style == Style::ObjStm { 1 } else { 0 };
             offsets.insert(xid, (1, xref_pos as u64, 0));
             let mut rows = Vec::new();
             let mut index = String::new();
             for (id, (t, a, b)) in &offsets { index.push_str(&format!("{} 1 ", id)); rows.push(*t); rows.extend_from_slice(&(*a as u32).to_be_bytes()); rows.extend_from_slice(&(*b as u16).to_be_bytes()); }
-            file.extend_from_slice(format!("{} 0 obj\n<</Type /XRef /Size {} /Root {} 0 R /Prev {} /W [1 4 2] /Index [{}] /Length {}>>\nstream\n", xid, xid + 1, root, prev, index.trim(), rows.len()).as_bytes());
+            file.extend_from_slice(format!("{} 0 obj\n<</Type /XRef /Size {} /Root {} 0 R /Prev {} /W [1 4 2] /Index [{}] /Length {}>>\nstream\n", xid, size, root, prev, index.trim(), rows.len()).as_bytes());
             file.extend_from_slice(&rows);
             file.extend_from_slice(b"\nendstream\nendobj\n");
         }
@@ -91,13 +124,22 @@ fn base_doc(n: u32) -> (Document, BTreeMap<u32, Object>) {
     (d, model)
 }
 
-fn updates() -> Vec<Vec<(u32, u8)>> {
-    // (object number, payload tag); numbers above the base are additions
-    vec![vec![(2, 1)], vec![(3, 1), (2, 1)], vec![(40, 1)], vec![(2, 1), (41, 1), (42, 1)], vec![(1, 1)], vec![(3, 1)]]
+pub const N_UPDATES: usize = 8;
+fn updates() -> Vec<Vec<Op>> {
+    use Op::*;
+    vec![
+        vec![Replace(2)], vec![Replace(3), Replace(2)], vec![At(40)], vec![Replace(2), At(41), At(42)], vec![Replace(1)], vec![Replace(3)],
+        // additions whose number the producer allocates
+        vec![New], vec![Replace(2), New, New],
+    ]
 }
 fn payload(id: u32, rev: usize, tag: u8) -> Object {
     if id == 1 { Object::Dictionary(dict(vec![(b"Type", name(b"Catalog")), (b"V", Object::Integer(rev as i64))])) }
     else { Object::Array(vec![Object::Integer(id as i64), Object::Name(format!("rev{}t{}", rev, tag).into_bytes())]) }
+}
+/// content of the k-th edit of revision `rev` when it is an allocated addition (cannot mention its number: the producer picks it)
+fn payload_new(rev: usize, k: usize) -> Object {
+    Object::Array(vec![name(b"added"), Object::Name(format!("rev{}k{}", rev, k).into_bytes())])
 }
 
 fn check_model(file: &[u8], model: &BTreeMap<u32, Object>, what: &str) -> Result<Document, (String, String)> {
@@ -111,64 +153,157 @@ fn check_model(file: &[u8], model: &BTreeMap<u32, Object>, what: &str) -> Result
     Ok(doc)
 }
 
-pub fn check_history(base_stream: bool, base_n: u32, style: Style, seq: &[usize], via_lopdf: bool) -> Result<(), (String, String)> {
+/// One history: revision i applies update set `seq[i]` and is written by `producers[i]`.
+/// `open_try_into`: lopdf revisions open the file with `TryInto<IncrementalDocument> for &[u8]` (the library's own
+/// loader) instead of `IncrementalDocument::create_from(bytes, Document::load_mem(bytes))`.
+/// `low_numbers`: the reference writer numbers its object-stream / cross-reference-stream objects with the lowest
+/// unused numbers (so they are not the highest numbers of the file) instead of fresh numbers above everything.
+pub fn check_history(base_stream: bool, base_n: u32, producers: &[Producer], seq: &[usize], open_try_into: bool, low_numbers: bool) -> Result<(), (String, String)> {
     let (mut d, mut model) = base_doc(base_n);
     d.reference_table.cross_reference_type = if base_stream { lopdf::xref::XrefType::CrossReferenceStream } else { lopdf::xref::XrefType::CrossReferenceTable };
     let mut file = vec![];
     d.save_to(&mut file).map_err(|e| ("base-save".to_string(), e.to_string()))?;
     let ups = updates();
     let mut prev_doc = check_model(&file, &model, "base")?;
+    let mut defined_in: BTreeMap<u32, usize> = model.keys().map(|k| (*k, 0usize)).collect(); // number -> revision that last defined it
     for (rev, u) in seq.iter().enumerate() {
-        let up = &ups[*u];
-        let objs: Vec<(u32, Object)> = up.iter().map(|(id, t)| (*id, payload(*id, rev + 1, *t))).collect();
-        for (id, o) in &objs { model.insert(*id, o.clone()); }
-        if via_lopdf {
-            let before = file.clone();
-            let prev_view = format!("{:?}", prev_doc.objects);
-            let mut inc = IncrementalDocument::create_from(file.clone(), prev_doc.clone());
-            for (id, o) in &objs { inc.new_document.objects.insert((*id, 0), o.clone()); inc.new_document.max_id = inc.new_document.max_id.max(*id); }
-            let mut out = vec![];
-            match guarded(std::panic::AssertUnwindSafe(|| inc.save_to(&mut out))) { Ok(Ok(())) => {}, other => return Err(("incremental-save".into(), format!("{:?}", other.map(|r| r.map_err(|e| e.to_string()))))) }
-            if !out.starts_with(&before) { return Err(("prefix-preserved".into(), format!("revision {}: the previously loaded bytes are not an unchanged prefix", rev + 1))); }
-            if format!("{:?}", inc.get_prev_documents().objects) != prev_view { return Err(("previous-view-unmodified".into(), "saving changed the view of the previous revisions".into())); }
-            // only new or replaced objects are appended
-            let tail = &out[before.len()..];
-            for (id, _) in model.iter() { if !up.iter().any(|(u, _)| u == id) { let pat = format!("\n{} 0 obj", id); if tail.windows(pat.len()).any(|w| w == pat.as_bytes()) { return Err(("only-new-objects".into(), format!("untouched object {} was written again", id))); } } }
-            file = out;
-        } else {
-            // fresh numbers for the container / xref stream: above every number used so far (50 + 2 per revision)
-            let size = 50 + 2 * rev as u32;
-            let prev = prev_doc.xref_start;
-            append_revision(&mut file, &objs, size, 1, prev, style);
+        let up = &ups[*u % ups.len()];
+        let producer = producers.get(rev).copied().unwrap_or(Producer::Lopdf);
+        let what = format!("revision {} ({:?})", rev + 1, producer);
+        let mut objs: Vec<(u32, Object)> = vec![];
+        match producer {
+            Producer::Lopdf => {
+                let before = file.clone();
+                let mut inc = if open_try_into {
+                    let r: Result<Result<IncrementalDocument, lopdf::Error>, String> = guarded(|| std::convert::TryInto::<IncrementalDocument>::try_into(file.as_slice()));
+                    match r { Ok(Ok(i)) => i, other => return Err(("loads".into(), format!("{}: opening the file as IncrementalDocument failed: {:?}", what, other.map(|r| r.map(|_| ()).map_err(|e| e.to_string()))))) }
+                } else {
+                    IncrementalDocument::create_from(file.clone(), prev_doc.clone())
+                };
+                let prev_view = format!("{:?}", inc.get_prev_documents().objects);
+                let opened_max_id = inc.new_document.max_id;   // quoted in the diagnosis only
+                for (k, op) in up.iter().enumerate() {
+                    match op {
+                        Op::Replace(id) | Op::At(id) => {
+                            let o = payload(*id, rev + 1, 1);
+                            inc.new_document.objects.insert((*id, 0), o.clone());
+                            inc.new_document.max_id = inc.new_document.max_id.max(*id);
+                            objs.push((*id, o));
+                        }
+                        Op::New => {
+                            let o = payload_new(rev + 1, k);
+                            let got = match guarded(std::panic::AssertUnwindSafe(|| inc.new_document.add_object(o.clone()))) { Ok(id) => id, Err(p) => return Err(("incremental-save".into(), format!("{}: new_document.add_object panicked: {}", what, p))) };
+                            // an ADDED object must not take the number of an object that an earlier revision (or this one) defines:
+                            // otherwise that untouched object no longer comes from its revision
+                            if got.1 != 0 || model.contains_key(&got.0) || objs.iter().any(|(i, _)| *i == got.0) {
+                                let owner = match defined_in.get(&got.0) { Some(r) if !objs.iter().any(|(i, _)| *i == got.0) => format!("revision {}{} defines as {:?}", r, if *r == 0 { " (the base)" } else { "" }, model.get(&got.0)), _ => "this revision already writes".to_string() };
+                                return Err(("added-object-gets-unused-number".into(), format!("{}: new_document.add_object() allocated {:?} for an ADDED object, a number that {} (new_document.max_id was {} after opening the file; highest number defined in the file is {}); saving would replace that untouched object", what, got, owner, opened_max_id, numbers_defined(&file).iter().chain(model.keys()).max().copied().unwrap_or(0))));
+                            }
+                            objs.push((got.0, o));
+                        }
+                    }
+                }
+                for (id, o) in &objs { model.insert(*id, o.clone()); defined_in.insert(*id, rev + 1); }
+                let mut out = vec![];
+                match guarded(std::panic::AssertUnwindSafe(|| inc.save_to(&mut out))) { Ok(Ok(())) => {}, other => return Err(("incremental-save".into(), format!("{:?}", other.map(|r| r.map_err(|e| e.to_string()))))) }
+                if !out.starts_with(&before) { return Err(("prefix-preserved".into(), format!("revision {}: the previously loaded bytes are not an unchanged prefix", rev + 1))); }
+                if format!("{:?}", inc.get_prev_documents().objects) != prev_view { return Err(("previous-view-unmodified".into(), "saving changed the view of the previous revisions".into())); }
+                // only new or replaced objects are appended
+                let tail = &out[before.len()..];
+                for (id, _) in model.iter() { if !objs.iter().any(|(u, _)| u == id) { let pat = format!("\n{} 0 obj", id); if tail.windows(pat.len()).any(|w| w == pat.as_bytes()) { return Err(("only-new-objects".into(), format!("untouched object {} was written again", id))); } } }
+                file = out;
+            }
+            Producer::Ref(style) => {
+                // every number in use so far: the model plus whatever bookkeeping objects earlier producers wrote (byte scan)
+                let mut used = numbers_defined(&file);
+                used.extend(model.keys().copied());
+                let mut hi = used.iter().max().copied().unwrap_or(0);
+                for (k, op) in up.iter().enumerate() {
+                    match op {
+                        Op::Replace(id) | Op::At(id) => objs.push((*id, payload(*id, rev + 1, 1))),
+                        Op::New => { hi += 1; used.insert(hi); objs.push((hi, payload_new(rev + 1, k))); }
+                    }
+                }
+                used.extend(objs.iter().map(|(i, _)| *i));
+                hi = used.iter().max().copied().unwrap_or(0);
+                // numbers for the object stream and the cross-reference stream
+                let mut book = vec![];
+                if low_numbers {
+                    let mut n = 1;
+                    while book.len() < 2 { if !used.contains(&n) { book.push(n); used.insert(n); } n += 1; }
+                } else {
+                    let b = (50 + 2 * rev as u32).max(hi + 1);   // fresh, above every number used so far
+                    book = vec![b, b + 1];
+                }
+                let (container, xid) = match style { Style::Table => (0, 0), Style::XStream => (0, book[0]), Style::ObjStm => (book[0], book[1]) };
+                let size = hi.max(container).max(xid) + 1;
+                for (id, o) in &objs { model.insert(*id, o.clone()); defined_in.insert(*id, rev + 1); }
+                let prev = prev_doc.xref_start;
+                append_revision(&mut file, &objs, container, xid, size, 1, prev, style);
+            }
         }
-        prev_doc = check_model(&file, &model, &format!("after revision {}", rev + 1))?;
+        prev_doc = check_model(&file, &model, &format!("after {}", what))?;
     }
     Ok(())
 }
 
+fn producers_for(base_stream: bool) -> Vec<Producer> {
+    // a table revision on top of an xref-stream file (or the reverse) would be a hybrid file: outside the domain
+    if base_stream { vec![Producer::Ref(Style::XStream), Producer::Ref(Style::ObjStm), Producer::Lopdf] } else { vec![Producer::Ref(Style::Table), Producer::Lopdf] }
+}
+fn producer_name(p: &Producer) -> &'static str {
+    match p { Producer::Ref(Style::Table) => "Table", Producer::Ref(Style::XStream) => "XStream", Producer::Ref(Style::ObjStm) => "ObjStm", Producer::Lopdf => "Lopdf" }
+}
+fn producer_from(s: &str) -> Producer {
+    match s { "Table" => Producer::Ref(Style::Table), "XStream" => Producer::Ref(Style::XStream), "ObjStm" => Producer::Ref(Style::ObjStm), _ => Producer::Lopdf }
+}
+
 pub fn run(thorough: bool) -> Report {
-    let mut rep = Report::new("base documents of 3 objects (table / xref-stream) x histories of 1..2 (thorough: 3) revisions over 6 update sets x {reference writer: table, xref stream, object stream; lopdf IncrementalDocument}; reload after every revision", true);
+    let mut rep = Report::new("base documents of 3 objects (table / xref-stream) x histories of 1..2 (thorough: 3) revisions over 8 update sets (6 replacing / adding under caller-chosen numbers 40..42, 2 adding 1..2 objects whose number the PRODUCER allocates: lopdf by new_document.add_object(), the reference writer highest+1) x a producer PER REVISION (table base: reference table writer | lopdf IncrementalDocument; xref-stream base: reference xref-stream writer | reference object-stream writer | lopdf IncrementalDocument; all mixed sequences) x {lopdf revisions opened by create_from(bytes, load_mem(bytes)) | by TryInto<IncrementalDocument> for &[u8]} (when a lopdf revision occurs) x {reference ObjStm/XRef objects numbered above everything | with the lowest unused numbers, so the newest section need not hold the highest number} (thorough only, when a reference stream revision occurs); /Size exact; reload after every revision; an allocated number must not be one an earlier revision defines", true);
     let maxlen = if thorough { 3 } else { 2 };
     let mut seqs: Vec<Vec<usize>> = vec![];
-    for a in 0..6 { seqs.push(vec![a]); for b in 0..6 { seqs.push(vec![a, b]); if maxlen >= 3 { for c in 0..6 { seqs.push(vec![a, b, c]); } } } }
+    for a in 0..N_UPDATES { seqs.push(vec![a]); for b in 0..N_UPDATES { seqs.push(vec![a, b]); if maxlen >= 3 { for c in 0..N_UPDATES { seqs.push(vec![a, b, c]); } } } }
     for base_stream in [false, true] {
+        let ps = producers_for(base_stream);
         for seq in &seqs {
-            for (style, via) in [(Style::Table, false), (Style::XStream, false), (Style::ObjStm, false), (Style::Table, true)] {
-                if !via && style == Style::Table && base_stream { continue; }     // a table revision on top of an xref-stream file would be a hybrid file (outside the domain)
-                if !via && style != Style::Table && !base_stream { continue; }
-                rep.case(true);
-                if let Err((o, d)) = check_history(base_stream, 3, style, seq, via) {
-                    rep.fail(&o, d.clone(), json!({"base_stream": base_stream, "style": format!("{:?}", style), "seq": seq, "via_lopdf": via}), d);
+            // every assignment of a producer to each revision
+            let total = ps.len().pow(seq.len() as u32);
+            for code in 0..total {
+                let mut c = code;
+                let prods: Vec<Producer> = (0..seq.len()).map(|_| { let p = ps[c % ps.len()]; c /= ps.len(); p }).collect();
+                let has_lopdf = prods.iter().any(|p| *p == Producer::Lopdf);
+                let has_ref_stream = prods.iter().any(|p| matches!(p, Producer::Ref(Style::XStream) | Producer::Ref(Style::ObjStm)));
+                for open_try_into in [false, true] {
+                    if open_try_into && !has_lopdf { continue; }
+                    for low_numbers in [false, true] {
+                        // with a base of 3 contiguous numbers the lowest unused numbers ARE the highest until an earlier revision left a hole
+                        // (At(40..42)) and a later one is written below it: needs 3 revisions to matter, so thorough only
+                        if low_numbers && !(has_ref_stream && thorough) { continue; }
+                        rep.case(true);
+                        if let Err((o, d)) = check_history(base_stream, 3, &prods, seq, open_try_into, low_numbers) {
+                            let names: Vec<&str> = prods.iter().map(producer_name).collect();
+                            rep.fail(&o, d.clone(), json!({"base_stream": base_stream, "producers": names, "seq": seq, "open_try_into": open_try_into, "low_numbers": low_numbers}), d);
+                        }
+                    }
                 }
             }
         }
     }
     rep.sample("base(table,3 objects) ; rev1 replaces 2 ; rev2 replaces 3,2".into());
+    rep.sample("base(table,3 objects) ; rev1 by lopdf replaces 2 ; rev2 by lopdf (opened with TryInto) adds one object through add_object()".into());
+    rep.sample("base(xref stream,3 objects) ; rev1 by the reference object-stream writer adds object 40, ObjStm = 4, XRef = 5 ; rev2 by lopdf replaces 2 and adds two allocated objects".into());
     rep
 }
 
 pub fn replay(v: &Value) -> Result<(), String> {
-    let style = match v["style"].as_str() { Some("XStream") => Style::XStream, Some("ObjStm") => Style::ObjStm, _ => Style::Table };
     let seq: Vec<usize> = v["seq"].as_array().cloned().unwrap_or_default().iter().map(|x| x.as_u64().unwrap_or(0) as usize).collect();
-    check_history(v["base_stream"].as_bool().unwrap_or(false), 3, style, &seq, v["via_lopdf"].as_bool().unwrap_or(false)).map_err(|e| format!("{}: {}", e.0, e.1))
+    let prods: Vec<Producer> = match v["producers"].as_array() {
+        Some(a) => a.iter().map(|x| producer_from(x.as_str().unwrap_or("Lopdf"))).collect(),
+        None => {
+            // records written before the per-revision producer existed: one style / via_lopdf for the whole history
+            let p = if v["via_lopdf"].as_bool().unwrap_or(false) { Producer::Lopdf } else { producer_from(v["style"].as_str().unwrap_or("Table")) };
+            vec![p; seq.len()]
+        }
+    };
+    check_history(v["base_stream"].as_bool().unwrap_or(false), 3, &prods, &seq, v["open_try_into"].as_bool().unwrap_or(false), v["low_numbers"].as_bool().unwrap_or(false)).map_err(|e| format!("{}: {}", e.0, e.1))
 }
